@@ -228,3 +228,91 @@ Proof.
     rewrite Eid in Csp. unfold ent_sp in Csp. rewrite Hf, Hs in Csp. discriminate.
   - assert (Est : a_st (absm c m) = c_st c) by reflexivity. rewrite Est in Hs2. destruct Hst as [E|E], Hs2 as [E2|E2]; congruence.
 Qed.
+
+Lemma forallb_false_ex : forall {A} (p : A -> bool) l, forallb p l = false -> exists x, In x l /\ p x = false.
+Proof.
+  intros A p l. induction l as [|a r IH]; intros H; [discriminate|]. cbn [forallb] in H. destruct (p a) eqn:E.
+  - destruct (IH H) as [x [Hx Hp]]. exists x. split; [right; exact Hx | exact Hp].
+  - exists a. split; [left; reflexivity | exact E].
+Qed.
+Lemma getm_of_in : forall ms m, NoDup (map m_name ms) -> In m ms -> getm (m_name m) ms = Some m.
+Proof.
+  induction ms as [|a r IH]; intros m ND Hin; [inversion Hin|]. cbn [map] in ND. inversion ND as [|? ? Hnot ND']; subst.
+  unfold getm. cbn [find]. destruct Hin as [->|Hin]; [rewrite Nat.eqb_refl; reflexivity|].
+  destruct (Nat.eqb_spec (m_name a) (m_name m)) as [E|E]; [|apply IH; assumption].
+  exfalso. apply Hnot. rewrite E. apply in_map. exact Hin.
+Qed.
+Lemma all_joined_false_ex : forall es, all_joined es = false -> exists e, In e es /\ e_jp e = false.
+Proof. intros es H. unfold all_joined in H. apply forallb_false_ex in H. exact H. Qed.
+
+Lemma stuck_expire : forall c ms, inv_facts c ms -> forallb (fun m => blocked_a (absm c m)) ms = true ->
+  converged_b (mkS c ms) = false -> exists x s', step (mkS c ms) (LExpire x false) = Some s'.
+Proof.
+  intros c ms Hinv Hab Hnc. pose proof (iv_wfc _ _ Hinv) as Hwc. pose proof (wf_c_parts c Hwc) as W.
+  rewrite forallb_forall in Hab.
+  assert (Horph : forall e, In e (c_ents c) -> e_jp e = false -> e_sp e = false -> (c_st c = CPreparing \/ c_st c = CCompleting) -> orphan ms e = true).
+  { intros e He Hj Hs Hst. unfold orphan. apply negb_true_iff. destruct (existsb (fun m => bound m (e_id e)) ms) eqn:Ex; [|reflexivity]. exfalso.
+    apply existsb_exists in Ex. destruct Ex as [m [Hin B]].
+    assert (L : m_live m = true) by (unfold bound in B; apply andb_true_iff in B; apply B).
+    rewrite (blocked_not_bound c ms m e Hinv Hin L (Hab m Hin) He Hj Hs Hst) in B. discriminate. }
+  destruct (c_st c) eqn:Hst.
+  - (* Empty: no entries, nobody alive can be settled: converged *)
+    exfalso. pose proof (wc_empty c W) as He. rewrite Hst in He. cbn in He. assert (Ee : c_ents c = []) by (destruct (c_ents c); [reflexivity | discriminate]).
+    unfold converged_b in Hnc. cbn [s_c s_ms] in Hnc. rewrite Hst, Ee in Hnc. cbn [cstate_eqb orb forallb andb] in Hnc. rewrite andb_true_r in Hnc.
+    apply forallb_false_ex in Hnc. destruct Hnc as [m [Hin Hs]]. destruct (m_live m) eqn:L.
+    + destruct (blocked_cases _ (Hab m Hin) L) as [Wj|[Ws|[S _]]].
+      * destruct (waiting_abs c m) as [Ej _]. rewrite Ej in Wj. unfold waiting_join in Wj. apply andb_true_iff in Wj. destruct Wj as [P I].
+        pose proof (coh_waiting_join c m (iv_coh _ _ Hinv m Hin) L (ph_of_eqb _ _ P) (none_of_is_none _ I)) as Cj.
+        unfold ent_jp in Cj. rewrite Ee in Cj. discriminate.
+      * destruct (waiting_abs c m) as [_ Es]. rewrite Es in Ws. unfold waiting_sync in Ws. apply andb_true_iff in Ws. destruct Ws as [P I].
+        pose proof (coh_waiting_sync c m (iv_coh _ _ Hinv m Hin) L (ph_of_eqb _ _ P) (none_of_is_none _ I)) as Cs.
+        unfold ent_sp in Cs. rewrite Ee in Cs. discriminate.
+      * unfold settled in Hs. congruence.
+    + destruct (dead_trivial c m L) as (_ & _ & _ & _ & S). congruence.
+  - (* Preparing: an entry that has not joined is an orphan *)
+    pose proof (wc_notall c W) as Hn. rewrite Hst in Hn. cbn [cstate_eqb negb orb] in Hn. apply negb_true_iff in Hn.
+    destruct (all_joined_false_ex _ Hn) as [e [He Hj]].
+    pose proof (wc_sp c W) as Hsp. rewrite Hst in Hsp. cbn [cstate_eqb orb] in Hsp. rewrite forallb_forall in Hsp.
+    assert (Hs : e_sp e = false) by (apply negb_true_iff; apply Hsp; exact He).
+    destruct (expire_enabled c ms e Hwc He (Horph e He Hj Hs (or_introl eq_refl)) Hj Hs) as [s' E]. exists (e_id e), s'. exact E.
+  - (* Completing: the leader's entry is an orphan *)
+    pose proof (wc_leader c W) as Hl. rewrite Hst in Hl. apply andb_true_iff in Hl. destruct Hl as [Hl _]. apply memb_In in Hl.
+    unfold ids in Hl. apply in_map_iff in Hl. destruct Hl as [e [Ee He]].
+    pose proof (wc_jp c W) as Hjp. rewrite Hst in Hjp. cbn [cstate_eqb orb] in Hjp. rewrite forallb_forall in Hjp.
+    assert (Hj : e_jp e = false) by (apply negb_true_iff; apply Hjp; exact He).
+    assert (Hs : e_sp e = false).
+    { pose proof (wc_lsp c W) as H. unfold ent_sp in H. rewrite <- Ee in H.
+      rewrite (find_ent_in (c_ents c) e (proj1 (nodupb_NoDup _) (wc_nodup c W)) He) in H. exact H. }
+    destruct (expire_enabled c ms e Hwc He (Horph e He Hj Hs (or_intror eq_refl)) Hj Hs) as [s' E]. exists (e_id e), s'. exact E.
+  - (* Stable: everybody alive is settled, so some entry is an orphan *)
+    pose proof (wc_jp c W) as Hjp. rewrite Hst in Hjp. cbn [cstate_eqb orb] in Hjp. rewrite forallb_forall in Hjp.
+    pose proof (wc_sp c W) as Hsp. rewrite Hst in Hsp. cbn [cstate_eqb orb] in Hsp. rewrite forallb_forall in Hsp.
+    assert (Hset : forallb (settled c) ms = true).
+    { apply forallb_forall. intros m Hin. destruct (m_live m) eqn:L; [|apply (dead_trivial c m L)].
+      destruct (blocked_cases _ (Hab m Hin) L) as [Wj|[Ws|[S _]]]; [| |exact S]; exfalso.
+      - destruct (waiting_abs c m) as [Ej _]. rewrite Ej in Wj. unfold waiting_join in Wj. apply andb_true_iff in Wj. destruct Wj as [P I].
+        pose proof (coh_waiting_join c m (iv_coh _ _ Hinv m Hin) L (ph_of_eqb _ _ P) (none_of_is_none _ I)) as Cj.
+        unfold ent_jp in Cj. destruct (find_ent (m_focus m) (c_ents c)) as [e|] eqn:F; [|discriminate].
+        unfold find_ent in F. apply find_some in F. destruct F as [He _]. specialize (Hjp e He). rewrite Cj in Hjp. discriminate.
+      - destruct (waiting_abs c m) as [_ Es]. rewrite Es in Ws. unfold waiting_sync in Ws. apply andb_true_iff in Ws. destruct Ws as [P I].
+        pose proof (coh_waiting_sync c m (iv_coh _ _ Hinv m Hin) L (ph_of_eqb _ _ P) (none_of_is_none _ I)) as Cs.
+        unfold ent_sp in Cs. destruct (find_ent (m_id m) (c_ents c)) as [e|] eqn:F; [|discriminate].
+        unfold find_ent in F. apply find_some in F. destruct F as [He _]. specialize (Hsp e He). rewrite Cs in Hsp. discriminate. }
+    unfold converged_b in Hnc. cbn [s_c s_ms] in Hnc. rewrite Hst, Hset in Hnc. cbn [cstate_eqb orb andb] in Hnc.
+    apply forallb_false_ex in Hnc. destruct Hnc as [e [He Hb]].
+    assert (Hj : e_jp e = false) by (apply negb_true_iff; apply Hjp; exact He).
+    assert (Hs : e_sp e = false) by (apply negb_true_iff; apply Hsp; exact He).
+    rewrite Hj, Hs in Hb. cbn [negb andb] in Hb. rewrite !andb_true_r in Hb. apply negb_false_iff in Hb.
+    destruct (expire_enabled c ms e Hwc He Hb Hj Hs) as [s' E]. exists (e_id e), s'. exact E.
+Qed.
+
+Theorem progress_all : forall s, inv_b s = true -> converged_b s = false -> progress_at s.
+Proof.
+  intros [c ms] Hi Hc. pose proof (inv_unpack c ms Hi) as Hinv.
+  destruct (forallb (fun m => blocked_a (absm c m)) ms) eqn:Ab.
+  - destruct (stuck_expire c ms Hinv Ab Hc) as [x [s' E]]. exists (LExpire x false), s'. split; [exact E | left; reflexivity].
+  - destruct (forallb_false_ex _ _ Ab) as [m [Hin Hb]].
+    assert (L : m_live m = true).
+    { unfold blocked_a in Hb. destruct (a_live (absm c m)) eqn:E; [exact E | discriminate]. }
+    apply (member_can_move c ms (m_name m) m Hinv (getm_of_in ms m (iv_names _ _ Hinv) Hin) L Hb).
+Qed.
